@@ -481,6 +481,14 @@ def m_decode(en, st, recv, a, kw):
     return out
 
 
-METHODS = {'bit_length': m_bit_length, 'popitem': m_popitem, 'decode': m_decode, 'append': m_append, 'extend': m_extend, 'get': m_get, 'items': m_items, 'keys': m_keys, 'values': m_values, 'add': m_add,
+set_inter = z3.Function('set_inter', VL, VL, VL)       # intersection of two sets (as item lists): uninterpreted, shared with specifications
+
+
+def m_intersection(en, st, recv, a, kw):
+    x, y = en.read(recv, st), en.read(a[0], st)
+    return [(st.assume(V.is_Set(x)), V.Set(set_inter(V.sitems(x), z3.If(V.is_Set(y), V.sitems(y), V.items(y)))))]
+
+
+METHODS = {'intersection': m_intersection, 'bit_length': m_bit_length, 'popitem': m_popitem, 'decode': m_decode, 'append': m_append, 'extend': m_extend, 'get': m_get, 'items': m_items, 'keys': m_keys, 'values': m_values, 'add': m_add,
            'startswith': m_startswith, 'join': m_join, 'format': m_format, 'lower': m_lower, 'pop': m_pop, 'setdefault': m_setdefault,
            'update': m_update, 'copy': m_copy, 'split': m_split, 'strip': m_strip, 'encode': m_encode, 'index': m_index}
